@@ -83,13 +83,10 @@ class BasicStructure(ComplexDop):
             actual_len = encode_state.cursor_byte_position - orig_pos
 
             if actual_len < self.byte_size:
-                # Padding bytes are needed. We add an empty object at
-                # the position directly after the structure and let
-                # EncodeState add the padding as needed.
-                encode_state.cursor_byte_position = encode_state.origin_byte_position + self.byte_size
-                # Padding bytes needed. these count as "used".
-                encode_state.coded_message += b"\x00" * (self.byte_size - actual_len)
-                encode_state.used_mask += b"\xff" * (self.byte_size - actual_len)
+                # Padding bytes are needed. They are located directly
+                # after the content of the structure and they count
+                # as "used".
+                encode_state.emplace_bytes(b"\x00" * (self.byte_size - actual_len))
 
     @override
     def decode_from_pdu(self, decode_state: DecodeState) -> ParameterValue:
